@@ -83,6 +83,9 @@ func (ex *Exec) callBuiltin(fr *frame, name string, args []Value, c *ssa.CallCom
 	case "delete":
 		m := args[0].(*MapVal)
 		if m != nil {
+			if len(ex.guards) > 0 {
+				ex.guardMap(m, true)
+			}
 			ex.mapDelete(m, args[1])
 		}
 		return nil
@@ -273,6 +276,9 @@ func (ex *Exec) lookup(fr *frame, in *ssa.Lookup) Value {
 	case *StrVal:
 		return ex.strIndex(xv, ex.get(fr, in.Index).(*Term))
 	case *MapVal:
+		if len(ex.guards) > 0 {
+			ex.guardMap(xv, false)
+		}
 		vt := in.X.Type().Underlying().(*types.Map).Elem()
 		var v Value
 		found := false
@@ -307,6 +313,9 @@ func (ex *Exec) rangeInit(x Value) Value {
 	case *StrVal:
 		return &rangeIter{str: xv}
 	case *MapVal:
+		if len(ex.guards) > 0 {
+			ex.guardMap(xv, false)
+		}
 		it := &rangeIter{m: xv}
 		if xv != nil {
 			it.keys = append(it.keys, xv.Entries...)
